@@ -266,12 +266,17 @@ func (ss *servers) Get(name string) *server {
 
 // Update 更新配置
 func (s *server) Update(opt ServerOption) {
+	minLength := opt.CompressMinLength
+	// 如果未设置最少压缩长度，则设置为1KB(与NewServer保持一致)
+	if minLength == 0 {
+		minLength = defaultCompressMinLength
+	}
 	s.mutex.Lock()
 	defer s.mutex.Unlock()
 	s.locations = opt.Locations
 	s.cache = opt.Cache
 	s.compress = opt.Compress
-	s.compressMinLength = opt.CompressMinLength
+	s.compressMinLength = minLength
 	s.compressContentTypeFilter = opt.CompressContentTypeFilter
 }
 
